@@ -194,6 +194,8 @@ class Comparison(Display):
             append_list("Semantic", param1.semantic, param2.semantic)
         if param1.parameter_type != param2.parameter_type:
             append_list("Parameter type", param1.parameter_type, param2.parameter_type)
+        if param1.bit_position != param2.bit_position:
+            append_list("Bit position", param1.bit_position, param2.bit_position)
 
         if isinstance(param1, CodedConstParameter) and isinstance(param2, CodedConstParameter):
             if param1.diag_coded_type.base_data_type != param2.diag_coded_type.base_data_type:
